@@ -147,7 +147,7 @@ def run_case(case):
             try:
                 rows, processed, _ = multi.evaluate(rel, db, proc)
             except Exception as exc:  # noqa: BLE001
-                out["violations"].append({"kind": "process_or_execute_raised", "mech": "KF-prune-order-loss" if multi.prune_order_loss(rel, exc) else None, "detail": f"{exc_str(exc)} for {model.show(prog)} tree {short(rel, 400)} (pass {rep + 1})"})
+                out["violations"].append({"kind": "process_or_execute_raised", "mech": "KF-reapply-order-loss" if multi.prune_order_loss(rel, exc) else None, "detail": f"{exc_str(exc)} for {model.show(prog)} tree {short(rel, 400)} (pass {rep + 1})"})
                 return out
             c["processed_compared"] = c.get("processed_compared", 0) + 1
             if rep > 0:
